@@ -900,6 +900,9 @@ func interpEncoder(f *core.Func, tuple []string) (res string, ok bool) {
 			if identObj(info, x.X) == labels {
 				return tuple[evalE(x.Index).(int)]
 			}
+			if str, isStr := evalE(x.X).(string); isStr {
+				return int(str[evalE(x.Index).(int)]) // a byte of a string
+			}
 			panic("index")
 		case *ast.UnaryExpr:
 			if x.Op == token.NOT {
@@ -1114,7 +1117,28 @@ func interpEncoder(f *core.Func, tuple []string) (res string, ok bool) {
 				}
 			case *ast.RangeStmt:
 				if identObj(info, s.X) != labels {
-					panic("range")
+					// a range over a string decodes it rune by rune (an invalid byte reads as U+FFFD)
+					str, isStr := evalE(s.X).(string)
+					if !isStr {
+						panic("range")
+					}
+					for i, r := range str {
+						if s.Key != nil && exprStr(s.Key) != "_" {
+							env[identObj(info, s.Key)] = i
+						}
+						if s.Value != nil {
+							env[identObj(info, s.Value)] = int(r)
+						}
+						if r := execS(s.Body.List); r != nil {
+							return r
+						}
+						if ctl == "break" {
+							ctl = ""
+							break
+						}
+						ctl = ""
+					}
+					continue
 				}
 				for i, l := range tuple {
 					if s.Key != nil && exprStr(s.Key) != "_" {
@@ -1204,6 +1228,9 @@ func collisionSearch(f *core.Func, seeds []string) (string, string) {
 	}
 	gen("", maxLen)
 	strs = append(strs, "abcdefghi2zz", "12abcdefghi", "zz")
+	// labels are arbitrary byte strings (captured from log lines): two different invalid UTF-8 bytes, which an
+	// encoder that goes through runes cannot tell apart
+	strs = append(strs, "\xff", "\xfe", "a\xff", "a\xfe", "\uFFFD")
 	// arity 3 over a reduced set: strings of length <= 2 over the characters the encoder mentions plus one ordinary
 	// character (collisions that need a merge in one position to be offset by a split in another need three elements)
 	var special []string
